@@ -187,11 +187,13 @@ func vp_C03_roundtrip() {
 		vpAssert("set-unsigned", err == nil)
 		if err == nil {
 			vpAssert("id-after-unsigned", e2.EventID() == id)
+			vpSameEvent("after-unsigned", ev, e2) // an unsigned edit changes nothing else the property names (room, first auth event, ...)
 		}
 		// extra signature
 		_, priv2B := vpKey("other")
 		e3 := ev.Sign("y", "ed25519:2", ed25519.PrivateKey(priv2B))
 		vpAssert("id-after-signature", e3.EventID() == id)
+		vpSameEvent("after-signature", ev, e3)
 		// redaction
 		r, err := verImpl.NewEventFromTrustedJSON(ev.JSON(), false)
 		if err == nil {
